@@ -13,8 +13,8 @@ import (
 
 	"verif/kit"
 
-	"github.com/mycoria/mycoria/config"
 	"github.com/mycoria/crop"
+	"github.com/mycoria/mycoria/config"
 	"github.com/mycoria/mycoria/frame"
 	"github.com/mycoria/mycoria/m"
 )
@@ -142,6 +142,7 @@ func maliciousHandshake(t *testing.T, rep *kit.Report, env kit.Env, evals, nontr
 				continue
 			}
 			dv := devs[di]
+			markCase("handshake", "handshake part")
 			synctest.Test(t, func(t *testing.T) {
 				r, err := kit.NewNode(kit.NodeOpts{Name: "R", ID: pool[0], Store: config.Store{}})
 				must(err)
